@@ -575,6 +575,65 @@ func addPendingAttestations(rng *rand.Rand, sp *common.Spec, s *flat.State, pr p
 	})
 }
 
+// corrupt applies one corruption that keeps the state decodable; returns its name ("" = not applicable)
+// and the sub-transitions whose verdict it decides in the pyspec.
+// Only previous-epoch pending attestations are corrupted: the spec reads every one of them in
+// get_source_deltas, whereas a current-epoch attestation is only read when its target matches.
+// Not generated: registry/balances length mismatches, out-of-range committee indices and over-long bitlists (zrnt is lenient where the pyspec
+// raises IndexError or the other way round; such states are not reachable and outside the property).
+func corrupt(rng *rand.Rand, sp *common.Spec, s *flat.State) (string, []string) {
+	n := len(s.Validators)
+	att := func() *flat.PendingAtt {
+		if len(s.PrevAtts) == 0 {
+			return nil
+		}
+		return &s.PrevAtts[rng.Intn(len(s.PrevAtts))]
+	}
+	attSubs := []string{"all", "rewards"}
+	switch rng.Intn(6) {
+	case 0:
+		if x := att(); x != nil && len(x.Bits) > 1 {
+			x.Bits = x.Bits[:len(x.Bits)-1]
+			return "att-bits-short", attSubs
+		}
+	case 1:
+		// (a committee index >= committees_per_slot is NOT generated: the pyspec's get_beacon_committee has no
+		// range assertion and silently yields another slot's committee, zrnt's GetBeaconCommittee rejects it)
+	case 2:
+		if x := att(); x != nil {
+			x.InclusionDelay = 0
+			for i := range x.Bits {
+				x.Bits[i] = true
+			}
+			return "att-inclusion-delay-zero", attSubs
+		}
+	case 3:
+		if x := att(); x != nil {
+			x.ProposerIndex = uint64(n + rng.Intn(3))
+			for i := range x.Bits {
+				x.Bits[i] = true
+			}
+			return "att-proposer-out-of-range", attSubs
+		}
+	case 4:
+		if s.Fork != "phase0" {
+			// the validator whose entry goes missing is an ordinary active one, so every reader needs the entry
+			last := &s.Validators[n-1]
+			last.Slashed, last.ActivationEligibilityEpoch, last.ActivationEpoch, last.ExitEpoch, last.WithdrawableEpoch = false, 0, 0, far, far
+			s.PrevParticipation = s.PrevParticipation[:n-1]
+			return "participation-shorter-than-validators", []string{"all", "rewards", "inactivity", "justification"}
+		}
+	case 5:
+		if s.Fork != "phase0" {
+			last := &s.Validators[n-1]
+			last.Slashed, last.ActivationEligibilityEpoch, last.ActivationEpoch, last.ExitEpoch, last.WithdrawableEpoch = false, 0, 0, far, far
+			s.InactivityScores = s.InactivityScores[:n-1]
+			return "inactivity-scores-shorter-than-validators", []string{"all", "inactivity"}
+		}
+	}
+	return "", nil
+}
+
 // ---------------------------------------------------------------------------------------------
 // statistics of the state shapes (the "histories" the property text names)
 
@@ -667,7 +726,7 @@ func gen(o hreg.Opts, w *bufio.Writer) error {
 	if o.Thorough() {
 		sizes = []int{8, 16, 32, 64, 96, 128}
 	}
-	nStates := o.Pick(10, 120) // per fork
+	nStates := o.Pick(30, 150) // per fork
 	for forkIdx := 0; forkIdx < 5; forkIdx++ {
 		for i := 0; i < nStates; i++ {
 			sp, spName := specVariant(rng, []int{0, 0, 1, 2, 3}[i%5])
@@ -707,7 +766,7 @@ func gen(o hreg.Opts, w *bufio.Writer) error {
 		}
 	}
 	// whole ProcessSlots runs, including across fork boundaries
-	nSlots := o.Pick(30, 400)
+	nSlots := o.Pick(80, 500)
 	for i := 0; i < nSlots; i++ {
 		forkIdx := rng.Intn(5)
 		sp, spName := specVariant(rng, []int{0, 1, 1, 2, 3}[i%5])
@@ -745,7 +804,7 @@ func gen(o hreg.Opts, w *bufio.Writer) error {
 		st.Add("op", "slots-from-"+s.Fork)
 	}
 	// isolated upgrades at the fork slot
-	nUp := o.Pick(8, 60)
+	nUp := o.Pick(16, 80)
 	for i := 0; i < nUp; i++ {
 		forkIdx := i % 4
 		sp, _ := specVariant(rng, []int{0, 1, 3}[i%3])
@@ -770,6 +829,29 @@ func gen(o hreg.Opts, w *bufio.Writer) error {
 		emit("upgrade", sp, s, e.tokens())
 		st.Add("op", "upgrade-from-"+s.Fork)
 	}
+	// arbitrary-but-decodable states: one corruption each; both sides may reject (accept/reject is compared)
+	nBad := o.Pick(80, 500)
+	for i := 0; i < nBad; i++ {
+		forkIdx := []int{0, 0, 0, 1, 2, 3, 4}[rng.Intn(7)]
+		sp, _ := specVariant(rng, []int{0, 1, 3}[i%3])
+		spe := uint64(sp.SLOTS_PER_EPOCH)
+		epoch := uint64(2 + rng.Intn(9))
+		setForks(sp, forkIdx, epoch, 0, rng)
+		pr := randProfile(rng)
+		pr.partDensity = 90
+		s := genState(rng, sp, forkIdx, epoch*spe+spe-1, 16, pr, st)
+		kind, subs := corrupt(rng, sp, s)
+		if kind == "" {
+			continue
+		}
+		sub := subs[rng.Intn(len(subs))]
+		e := extrasForEpoch(sp, s, sub)
+		emit("epoch "+sub, sp, s, e.tokens())
+		st.Add("op", "corrupted-epoch-"+sub)
+		st.Add("corruption", kind)
+	}
+	// states reached by valid chains with blocks (second source)
+	chainOps(o, rng, st, emit)
 	// malformed lines
 	fmt.Fprintln(w, "epoch all fork=phase0")
 	fmt.Fprintln(w, "nonsense")
